@@ -124,6 +124,28 @@ var properties = map[string]*Property{
 			"string methods: Index/Slice/Len are compared over an uninterpreted model of strings (same indexing function on both sides)",
 		},
 	},
+	"C36": {
+		ID:    "C36",
+		Title: "Code completion returns exactly the matching in-scope names, sorted and unique",
+		Units: []Unit{
+			{Kind: "funcs", Pkg: "fast", Funcs: []string{"sortUnique"}},
+		},
+		NotCovered: []string{
+			"that no input element is lost by sortUnique (the inductive invariant needs an existential witness the solvers do not find)",
+			"word splitting and scope search (Interp.CompleteWords, Comp.CompleteWords, completeWord, completeLastWord), field and method listing (listFieldsAndMethods), head/tail reassembly: string- and reflection-heavy code outside the verified subset",
+		},
+	},
+	"C17": {
+		ID:    "C17",
+		Title: "The dependency sorter returns a deterministic, source-stable topological order",
+		Units: []Unit{
+			{Kind: "funcs", Pkg: "base/dep", Funcs: []string{"remove_item_inplace", "dup", "sort_unique_inplace"}},
+		},
+		NotCovered: []string{
+			"everything that makes the order topological, deterministic and source-stable: graph.Sort, RemoveNodesNoDeps, RemoveTypeFwd, the cycle error, the phase split in sorter.go, the free-name extraction in scope.go (maps of maps, recursion over syntax trees: outside the verified subset in the time available)",
+			"filter_if_inplace (calls an unknown predicate that may change the list)",
+		},
+	},
 	"C37": {
 		ID:    "C37",
 		Title: "REPL command lookup resolves unique prefixes and reports ambiguity",
